@@ -576,6 +576,53 @@ pub fn run_case(out: &mut Out, header: &str) {
             }
         }
     }
+    // a FORMAT edit on a loaded workbook whose custom number-format ids have a gap (three or more custom formats, the
+    // cell that carried a middle one removed before the save that the load reads): giving one cell a number format the
+    // workbook does not contain yet must leave every other cell's format alone
+    if generated {
+        let seed: u64 = header.bytes().fold(13u64, |h, b| h.wrapping_mul(139).wrapping_add(b as u64));
+        let mut rng = Rng::new(seed);
+        let n = rng.range(3, 6) as u32;
+        let drop_at = rng.range(1, (n - 1) as u64) as u32; // never the last one: leaves a gap below the highest id
+        let r = guard(|| -> Result<(String, String), String> {
+            let mut b = umya_spreadsheet::new_file();
+            for i in 0..n {
+                let cell = b.get_sheet_mut(&0).unwrap().get_cell_mut((1u32, 1 + i));
+                cell.set_value_number(1234.5 + i as f64);
+                cell.get_style_mut().get_numbering_format_mut().set_format_code(format!("0.{}\"g{}\"", "0".repeat(1 + i as usize), i));
+            }
+            let _ = drop_at;
+            // the gap is made in the FILE (spreadsheet applications leave such gaps when they prune unused formats): the
+            // custom id 176 + j (a middle one) is renumbered to 176 + n in the numFmt table and in the xfs that use it
+            let j = rng.range(1, (n - 1) as u64) as u32;
+            let (from, to) = (format!("numFmtId=\"{}\"", 176 + j), format!("numFmtId=\"{}\"", 176 + n));
+            let parts: Vec<(String, Vec<u8>)> = unzip_all(&wb::save_bytes(&b, light)?)?
+                .into_iter()
+                .map(|(name, data)| {
+                    if name == "xl/styles.xml" {
+                        (name, String::from_utf8_lossy(&data).replace(&from, &to).into_bytes())
+                    } else {
+                        (name, data)
+                    }
+                })
+                .collect();
+            let loaded = reload(&crate::c03::zip_parts(&parts, false))?;
+            let mut edited = loaded.clone();
+            let (ec, er) = (rng.range(2, 5) as u32, rng.range(1, 9) as u32);
+            let cell = edited.get_sheet_mut(&0).unwrap().get_cell_mut((ec, er));
+            cell.set_value_number(42);
+            cell.get_style_mut().get_numbering_format_mut().set_format_code("yyyy-mm \"(edited)\"");
+            let back = reload(&wb::save_bytes(&edited, light)?)?;
+            Ok((full_view(&edited), full_view(&back)))
+        });
+        out.count("edit.number-format-on-gapped-ids");
+        match r {
+            Ok(Ok((want, got))) if want == got => out.oracle_ok(),
+            Ok(Ok((want, got))) => out.oracle_fail(Fail::new("edit-not-local").with("op", header).with("cell", "number format edit on a workbook with a gap in its custom numFmt ids").with("detail", first_diff(&want, &got))),
+            Ok(Err(e)) => out.oracle_fail(Fail::new("save-failed").with("op", header).with("generation", format!("format-edit: {}", e))),
+            Err(_) => out.oracle_fail(Fail::new("save-failed").with("op", header).with("generation", "format-edit panicked")),
+        }
+    }
     // the attribute channel: stored text -> raw attribute text in the file -> text after reload
     if let Ok(parts) = unzip_all(&bytes_list[0]) {
         if let Some((_, wbx)) = parts.iter().find(|p| p.0 == "xl/workbook.xml") {
